@@ -409,10 +409,25 @@ def filter_case(case):
                         if n:
                             lits.append((n, r))
                 return lits
-            def claimed(lits):
-                # only literals that no replacement of the file can re-create (Compat, see Props/C07)
-                return [n for n, _ in lits if all(model().ask(f'compat {enhex(n)} {enhex(r2)}') == '1' for _, r2 in lits)]
-            bl, ml = claimed(literals(case.get('blob_rules_hex'))), claimed(literals(case.get('msg_rules_hex')))
+            def pattern_replacements(hx):
+                # the regex:/glob: rules of the same file run after the literal pass: what they insert can re-create a literal too
+                reps, template = [], False
+                for line in unhex(hx).split(b'\n'):
+                    if line.startswith(b'regex:') or line.startswith(b'glob:'):
+                        r = line.split(b'==>', 1)[1] if b'==>' in line else b'***REMOVED***'
+                        reps.append(r)
+                        if line.startswith(b'regex:') and b'$' in r:
+                            template = True          # a capture template can insert anything the data holds
+                return reps, template
+            def claimed(hx):
+                # only literals that no replacement of the file - of a literal rule or of a pattern rule - can re-create
+                # (Compat, see Props/C07; the property's own hypothesis is that the replacements do not contain the literals)
+                lits = literals(hx)
+                preps, template = pattern_replacements(hx)
+                if template:
+                    return []
+                return [n for n, _ in lits if all(model().ask(f'compat {enhex(n)} {enhex(r2)}') == '1' for r2 in [r for _, r in lits] + preps)]
+            bl, ml = claimed(case.get('blob_rules_hex')), claimed(case.get('msg_rules_hex'))
             left = object_scan(repo, bl, ml)
             if left:
                 res['failures'].append(('C07', f'literal(s) still in the object database after the rewrite: {left[:4]}'))
